@@ -763,6 +763,6 @@ func (s *rtSession) step(st RTStep, idx int) (stop, nontrivial bool, desc string
 	return false, nontrivial, desc, nil
 }
 
-var propRT = h.NewProp("TestPropRoundTrip", h.Budget{Quick: 4000, Thorough: 48000}, genRT, runRT)
+var propRT = h.NewProp("TestPropRoundTrip", h.Budget{Quick: 2000, Thorough: 20000}, genRT, runRT)
 
 func TestPropRoundTrip(t *testing.T) { propRT.Check(t) }
